@@ -610,6 +610,22 @@ struct Client {
     for (int i = 0; i < 4; ++i) {
       RG rg;
     }
+    // the presets (epoch_based, new_epoch_based, debra) try to advance the epoch only every 20 / 100 critical region
+    // entries: keep entering regions (up to 40 x 16) while a retired program object is still waiting
+    // (only the creation of a guard_ptr counts as a critical region entry)
+    Node* keep = nullptr;
+    for (int k = 0; k < 40 && pending_retired(); ++k) {
+      if (!keep) keep = alloc_node(true);
+      for (int i = 0; i < 16; ++i) {
+        RG rg;
+        GPtr g{MPtr(keep)};
+      }
+    }
+  }
+  static bool pending_retired() {
+    for (int id = 0; id < R.n_nodes; ++id)
+      if (!R.nodes[id].dummy && R.nodes[id].retired && !R.nodes[id].destroyed) return true;
+    return false;
   }
 
   void run() {
